@@ -211,6 +211,8 @@ class TagFlow:
                 contrib = po
                 if pn.kind == "test" and labels <= {"T", "F"} and len(labels) == 1:
                     contrib = self.policy.refine(pn.expr, "T" in labels, dict(po), self)
+                    if contrib is None:  # edge proved infeasible by the policy
+                        continue
                 elif labels == {"exc"}:
                     # the statement may not have completed: use its in-state too
                     contrib = self._meet(po, self.inn.get(p))
